@@ -784,6 +784,20 @@ class IRGenerator:
             if isinstance(unwrapped_dt, Void):
                 raise InvalidSpec('Void cannot be marked nullable.', *loc)
 
+        # Likewise for members typed by an alias of Void.
+        for namespace in self.api.namespaces.values():
+            for data_type in namespace.data_types:
+                for field in data_type.fields:
+                    if not is_alias(field.data_type):
+                        continue
+                    unwrapped_dt, _ = unwrap_aliases(field.data_type)
+                    if isinstance(unwrapped_dt, Void):
+                        raise InvalidSpec(
+                            '%s %s cannot have a Void type.' %
+                            ('Struct field' if isinstance(data_type, Struct)
+                             else 'Union member', quote(field.name)),
+                            field._ast_node.lineno, field._ast_node.path)
+
     def _populate_struct_type_attributes(self, env, data_type):
         """
         Converts a forward reference of a struct into a complete definition.
@@ -971,6 +985,15 @@ class IRGenerator:
                 for field in data_type.fields:
                     if not field._ast_node.has_default:
                         continue
+
+                    if unwrap(field.data_type)[1]:
+                        # (nullable through an alias; the direct case is
+                        # refused when the field is created)
+                        raise InvalidSpec(
+                            'Field %s cannot be a nullable '
+                            'type and have a default specified.' %
+                            quote(field.name),
+                            field._ast_node.lineno, field._ast_node.path)
 
                     if isinstance(field._ast_node.default, AstTagRef):
                         default_value = TagRef(
